@@ -19,6 +19,9 @@ pub enum Fault {
 	Garbage(usize, &'static str),
 	/// pings are enabled and writing a ping fails (first tick: at start-up)
 	Ping,
+	/// the n-th send fails and, the send half being broken, the transport's `close()` fails as well; the cause of the
+	/// disconnect is still the send error
+	SendAndClose(usize),
 }
 
 impl Fault {
@@ -29,6 +32,7 @@ impl Fault {
 			Fault::PeerClose(n) => format!("peer-close@{n}"),
 			Fault::Garbage(n, t) => format!("bad-message@{n}:{t}"),
 			Fault::Ping => "ping-error".to_string(),
+			Fault::SendAndClose(n) => format!("send-error@{n}+close-error"),
 		}
 	}
 	fn kind(&self) -> &'static str {
@@ -38,12 +42,13 @@ impl Fault {
 			Fault::PeerClose(_) => "peer-close",
 			Fault::Garbage(..) => "bad-message",
 			Fault::Ping => "ping-error",
+			Fault::SendAndClose(_) => "send+close-error",
 		}
 	}
 	/// text that the disconnect cause must display
 	fn cause_marker(&self) -> Vec<&'static str> {
 		match self {
-			Fault::Send(_) => vec!["injected-send-fault"],
+			Fault::Send(_) | Fault::SendAndClose(_) => vec!["injected-send-fault"],
 			Fault::Recv(_) => vec!["injected-recv-fault"],
 			Fault::PeerClose(_) => vec!["connection closed by peer"],
 			Fault::Ping => vec!["injected-ping-fault"],
@@ -75,7 +80,7 @@ impl FaultScenario {
 		let mut env: Vec<EnvEvent> = self.answered.iter().map(|m| EnvEvent::Answer { msg: *m, kind: AnswerKind::Ok }).collect();
 		let mut fail_send_at = None;
 		match &self.fault {
-			Fault::Send(n) => fail_send_at = Some(*n),
+			Fault::Send(n) | Fault::SendAndClose(n) => fail_send_at = Some(*n),
 			Fault::Recv(a) => env.push(EnvEvent::RecvError { after: *a, what: "injected-recv-fault".into() }),
 			Fault::PeerClose(a) => env.push(EnvEvent::RecvError { after: *a, what: "connection closed by peer".into() }),
 			Fault::Garbage(a, t) => env.push(EnvEvent::Raw { after: *a, text: t.to_string() }),
@@ -83,7 +88,7 @@ impl FaultScenario {
 		}
 		let late_after = env.len();
 		let ping = self.fault == Fault::Ping;
-		CliScenarioCfg { rx_split: false, ping_ms: None, send_ping_ms: if ping { Some(5) } else { None }, fail_ping: ping, warmup: 0, id_kind: self.id_kind, ops: self.ops.clone(), env, fail_send_at, tx_points: self.tx_points, buffer_cap: 4, late_after }
+		CliScenarioCfg { fail_close: matches!(self.fault, Fault::SendAndClose(_)), ws_builder: None, rx_split: false, ping_ms: None, send_ping_ms: if ping { Some(5) } else { None }, fail_ping: ping, warmup: 0, id_kind: self.id_kind, ops: self.ops.clone(), env, fail_send_at, tx_points: self.tx_points, buffer_cap: 4, late_after }
 	}
 }
 
@@ -128,7 +133,7 @@ impl Scenario for FaultScenario {
 		// did the fault actually happen in this execution? (a send fault on the n-th send needs n+1 sends)
 		let fault_happened = match &self.fault {
 			Fault::Ping => _trace.iter().any(|l| l == "tx:ping:FAULT"),
-			Fault::Send(n) => *st.shared.send_calls.lock().unwrap() > *n,
+			Fault::Send(n) | Fault::SendAndClose(n) => *st.shared.send_calls.lock().unwrap() > *n,
 			_ => l.deliveries.iter().any(|(k, _, _)| *k == self.answered.len()),
 		};
 		let markers = self.fault.cause_marker();
@@ -230,6 +235,9 @@ fn scenarios(thorough: bool) -> Vec<FaultScenario> {
 		let mut faults = Vec::new();
 		for n in 0..=sends {
 			faults.push(Fault::Send(n));
+			if n <= 1 {
+				faults.push(Fault::SendAndClose(n));
+			}
 			faults.push(Fault::Recv(n));
 			faults.push(Fault::PeerClose(n));
 		}
@@ -273,7 +281,7 @@ fn scenarios(thorough: bool) -> Vec<FaultScenario> {
 	}
 	// the same tasks held back once and then running back to back (once-only points), a few histories × faults
 	for ops in [vec![FeOp::Call, FeOp::Call], vec![FeOp::Call, FeOp::Subscribe], vec![FeOp::Call, FeOp::Batch(2), FeOp::LateCall]] {
-		for f in [Fault::Send(0), Fault::Send(1), Fault::Recv(1), Fault::PeerClose(2), Fault::Garbage(2, "not json")] {
+		for f in [Fault::Send(0), Fault::Send(1), Fault::SendAndClose(1), Fault::Recv(1), Fault::PeerClose(2), Fault::Garbage(2, "not json")] {
 			for ans in [vec![], vec![0usize]] {
 				out.push(FaultScenario { id_kind: IdKind::Number, ops: ops.clone(), answered: ans, fault: f.clone(), lib_points: true, tx_points: true, all_points: true, hold_once: true });
 			}
@@ -352,7 +360,7 @@ impl Scenario for HostileScenario {
 		ops.push(FeOp::LateCall);
 		let sends = self.pending.len();
 		let env = vec![EnvEvent::Raw { after: sends, text: self.text.clone() }, EnvEvent::Answer { msg: sends, kind: AnswerKind::Ok }];
-		clim::setup(&CliScenarioCfg { rx_split: false, ping_ms: None, send_ping_ms: None, fail_ping: false, warmup: 0, id_kind: IdKind::Number, ops, env, fail_send_at: None, tx_points: false, buffer_cap: 4, late_after: 1 })
+		clim::setup(&CliScenarioCfg { fail_close: false, ws_builder: None, rx_split: false, ping_ms: None, send_ping_ms: None, fail_ping: false, warmup: 0, id_kind: IdKind::Number, ops, env, fail_send_at: None, tx_points: false, buffer_cap: 4, late_after: 1 })
 	}
 	fn judge(&self, st: CliState, _trace: &[String], panics: &[String], status: Status) -> Verdict {
 		let mut v = Vec::new();
@@ -448,7 +456,7 @@ pub fn check(rep: &Reporter) {
 		use jsonrpsee_core::client::{ClientT, SubscriptionClientT};
 		let rt = tokio::runtime::Builder::new_current_thread().enable_all().build().unwrap();
 		let res = rt.block_on(async {
-			let shared = std::sync::Arc::new(clim::Shared { rx_split: false, fail_ping: false,
+			let shared = std::sync::Arc::new(clim::Shared { rx_split: false, fail_ping: false, fail_close: false,
 				sent: Default::default(),
 				send_calls: Default::default(),
 				fail_send_at: None,
